@@ -14,7 +14,9 @@ use crate::check::context::Context;
 use crate::check::result::TypeErr;
 use crate::common::result::WithSource;
 use crate::generate::{gen_arguments, GenArguments};
-use crate::parse::ast::AST;
+use crate::check::name::string_name::StringName;
+use crate::parse::ast::{Node, AST};
+use std::ops::Deref;
 
 pub mod common;
 
@@ -202,7 +204,39 @@ pub fn mamba_to_python(
                     .collect::<Vec<TypeErr>>()
             })
             .collect();
-        let errs = if per_file.is_empty() { errs } else { per_file };
+        // other errors arise between files: such an error belongs to a file without which it does not
+        // arise, and which has the class it is about at its position
+        let between_files = |err: &TypeErr| -> Vec<TypeErr> {
+            let pos = err.pos;
+            (0..asts.len())
+                .filter(|skip| {
+                    let others: Vec<AST> =
+                        asts.iter().enumerate().filter(|(i, _)| i != skip).map(|(_, ast)| ast.clone()).collect();
+                    let errs = Context::try_from(others.as_ref()).err().unwrap_or_default();
+                    !errs.iter().any(|other| other.msg == err.msg && other.pos == err.pos)
+                })
+                .filter(|file| {
+                    let statements = match &asts[*file].node {
+                        Node::Block { statements } => statements.clone(),
+                        _ => vec![],
+                    };
+                    statements.iter().any(|stmt| match (&stmt.node, &pos) {
+                        (Node::Class { ty, .. }, Some(pos)) => {
+                            stmt.pos == *pos
+                                && StringName::try_from(ty.deref()).map_or(false, |name| err.msg.contains(&name.name))
+                        }
+                        _ => false,
+                    })
+                })
+                .map(|file| err.clone().with_source(&Some(source[file].0.clone()), &source[file].1.clone()))
+                .collect()
+        };
+        let errs = if per_file.is_empty() {
+            let attributed: Vec<TypeErr> = errs.iter().flat_map(between_files).collect();
+            if attributed.is_empty() { errs } else { attributed }
+        } else {
+            per_file
+        };
         errs.iter().map(|e| format!("{e}")).collect::<Vec<String>>()
     })?;
     #[cfg(mamba_verif)]
